@@ -362,6 +362,8 @@ pub fn explore(sub: &mut Sub, harness: &str, cfg: &E2Cfg, body: impl Fn() + Send
   let mut per_bound = vec![];
   let mut completed_bound: Option<usize> = None;
   let mut capped = false;
+  let mut seen_failures: HashSet<(String, String)> = HashSet::new();
+  let mut replay_mismatch: Option<String> = None;
 
   // a paused runtime handle so that code under test may *construct* tokio timers; it is never
   // driven, so timers never fire (time-outs are modelled by dropping futures explicitly).
@@ -434,12 +436,20 @@ pub fn explore(sub: &mut Sub, harness: &str, cfg: &E2Cfg, body: impl Fn() + Send
               d.stack[..upto].iter().map(|l| format!("T{}@{}", l.choices[l.idx], if l.label.is_empty() { "-" } else { l.label })).collect(),
             )
           };
-          let r1 = replay(body.clone(), &choices, cfg.max_steps);
-          let r2 = replay(body.clone(), &choices, cfg.max_steps);
+          let already = !seen_failures.insert((clause.clone(), class.clone()));
           let same = |r: &(Option<(String, String, String)>, Vec<(usize, &'static str)>, Option<String>)| {
             r.2.is_none() && r.0.as_ref().map(|f| (f.0.as_str(), f.1.as_str())) == Some((clause.as_str(), class.as_str()))
           };
-          if same(&r1) && same(&r2) {
+          // the first failure of each kind is confirmed by replaying its schedule twice
+          let confirmed = already || {
+            let r1 = replay(body.clone(), &choices, cfg.max_steps);
+            let r2 = replay(body.clone(), &choices, cfg.max_steps);
+            if !(same(&r1) && same(&r2)) {
+              replay_mismatch = Some(format!("{:?} / {:?}", r1.0, r2.0));
+            }
+            same(&r1) && same(&r2)
+          };
+          if confirmed {
             sub.violate(
               &clause,
               &format!("{}:{}", harness, class),
@@ -449,8 +459,8 @@ pub fn explore(sub: &mut Sub, harness: &str, cfg: &E2Cfg, body: impl Fn() + Send
           } else {
             sub.exhaustive = false;
             sub.caps_hit.push(format!(
-              "{}: MACHINERY failing schedule did not replay identically ({} / {:?} / {:?})",
-              harness, clause, r1.0, r2.0
+              "{}: MACHINERY failing schedule did not replay identically ({} / {:?})",
+              harness, clause, replay_mismatch
             ));
             crate::world::flag_machinery_error();
             break 'bounds;
@@ -493,5 +503,44 @@ pub fn explore(sub: &mut Sub, harness: &str, cfg: &E2Cfg, body: impl Fn() + Send
   }
   if sub.samples.len() < 3 {
     sub.sample(json!({"harness": harness, "per_bound": per_bound}));
+  }
+}
+
+
+/// One harness = a name and a body; `explore_all` runs every harness on its own OS thread (each has
+/// its own scheduler, DFS stack and thread-local state) and folds the results into `sub`.
+pub struct Harness {
+  pub name: String,
+  pub cfg: E2Cfg,
+  pub body: Arc<dyn Fn() + Send + Sync>,
+}
+
+impl Harness {
+  pub fn new(name: impl Into<String>, cfg: E2Cfg, body: impl Fn() + Send + Sync + 'static) -> Harness {
+    Harness { name: name.into(), cfg, body: Arc::new(body) }
+  }
+}
+
+pub fn explore_all(sub: &mut Sub, harnesses: Vec<Harness>) {
+  let threads = crate::par::threads();
+  let queue = Mutex::new(harnesses.into_iter().collect::<std::collections::VecDeque<_>>());
+  let results: Mutex<Vec<(String, Sub)>> = Mutex::new(vec![]);
+  std::thread::scope(|s| {
+    for _ in 0..threads {
+      s.spawn(|| loop {
+        let h = { queue.lock().unwrap().pop_front() };
+        let Some(h) = h else { break };
+        let mut part = Sub::new("part", "E2");
+        let body = h.body.clone();
+        explore(&mut part, &h.name, &h.cfg, move || body());
+        crate::world::tick_progress();
+        results.lock().unwrap().push((h.name.clone(), part));
+      });
+    }
+  });
+  let mut rs = results.into_inner().unwrap();
+  rs.sort_by(|a, b| a.0.cmp(&b.0));
+  for (_, part) in rs {
+    sub.absorb(part);
   }
 }
